@@ -6,4 +6,10 @@ namespace Blue.ConstsTie
 theorem mani_separator : Blue.Mani.SEP = Blue.Generated.maniTxSeparator := by decide
 theorem mani_min_line : Blue.Generated.maniMinLine = 9 := by decide
 
+
+/-- `Manifest::open` calls `read_mani(MANIFEST)` only inside the arm that holds the lock
+    (`Some(_lockfile) =>`), after `Lockfile::wait` / `Lockfile::lock`: `Blue.ManiLock.waiterOpen`
+    with `readFirst = false` -/
+theorem mani_open_reads_under_lock : Blue.Generated.maniOpenReadsUnderLock = 1 := by decide
+
 end Blue.ConstsTie
